@@ -560,3 +560,128 @@ def oldBaseAccepts (e d : Ext) : Bool :=
 
 end Val
 end DPL
+
+/-! ### the DOCUMENTED ranges, stated independently of the chains -/
+namespace DPL
+namespace Val
+
+namespace Ext
+/-- `x ≥ 0` and not NaN -/
+def Nonneg : Ext → Prop
+  | .fin q => 0 ≤ q | .posInf => True | _ => False
+/-- `0 ≤ x ≤ 1` -/
+def In01 : Ext → Prop
+  | .fin q => 0 ≤ q ∧ q ≤ 1 | _ => False
+def IsZero : Ext → Prop
+  | .fin q => q = 0 | _ => False
+/-- `x > 0` -/
+def Pos : Ext → Prop
+  | .fin q => 0 < q | .posInf => True | _ => False
+/-- `x ≤ 0` (False for NaN) -/
+def Nonpos : Ext → Prop
+  | .fin q => q ≤ 0 | .negInf => True | _ => False
+def LeOne : Ext → Prop
+  | .fin q => q ≤ 1 | .negInf => True | _ => False
+def LtHalf : Ext → Prop
+  | .fin q => q < 1 / 2 | .negInf => True | _ => False
+def LeHalf : Ext → Prop
+  | .fin q => q ≤ 1 / 2 | .negInf => True | _ => False
+/-- `x > 2⁻⁵²` -/
+def GtTwoEpsneg : Ext → Prop
+  | .fin q => 1 / 4503599627370496 < q | .posInf => True | _ => False
+/-- `a > b` (False as soon as a NaN is involved) -/
+def Gt : Ext → Ext → Prop
+  | .fin a, .fin b => b < a
+  | .posInf, .fin _ => True
+  | .posInf, .negInf => True
+  | .fin _, .negInf => True
+  | _, _ => False
+end Ext
+
+/-- the range of (epsilon, delta) each class documents on top of the general one -/
+def classRange : Mech → Ext → Ext → Prop
+  | .Gaussian, x, y => ¬ x.IsZero ∧ ¬ y.IsZero ∧ x.LeOne          -- classical Gaussian: 0 < epsilon ≤ 1, delta > 0
+  | .GaussianAnalytic, x, y => ¬ x.IsZero ∧ ¬ y.IsZero
+  | .GaussianDiscrete, x, y => ¬ x.IsZero ∧ ¬ y.IsZero
+  | .Laplace, _, _ => True
+  | .LaplaceTruncated, _, _ => True
+  | .LaplaceFolded, _, _ => True
+  | .LaplaceBoundedDomain, _, _ => True
+  | .LaplaceBoundedNoise, x, y => ¬ x.IsZero ∧ y.Pos ∧ y.LtHalf  -- epsilon > 0, 0 < delta < 1/2
+  | .Uniform, x, y => x.IsZero ∧ y.Pos ∧ y.LeHalf                -- epsilon = 0, 0 < delta ≤ 1/2
+  | .Snapping, x, y => y.IsZero ∧ x.GtTwoEpsneg                  -- pure, epsilon above twice the machine epsilon
+  | _, _, y => y.IsZero                                          -- pure mechanisms: delta = 0
+
+/-- epsilon ≥ 0 and not NaN, delta ∈ [0, 1], not both zero, both numbers, and the class's own range -/
+def ValidEpsDelta (m : Mech) (env : Env) : Prop :=
+  ∃ x y, (env.v .epsilon).real? = some x ∧ (env.v .delta).real? = some y ∧
+    x.Nonneg ∧ y.In01 ∧ ¬ (x.IsZero ∧ y.IsZero) ∧ classRange m x y
+
+def realNonneg (v : PyVal) : Prop := ∃ x, v.real? = some x ∧ x.Nonneg
+
+/-- sensitivity: a non-negative number (an integer for the integer-valued mechanisms), not NaN -/
+def ValidSens : Mech → Env → Prop
+  | .Binary, _ => True
+  | .ExponentialCategorical, _ => True
+  | .ExponentialHierarchical, _ => True
+  | .GaussianDiscrete, env => (env.v .sensitivity).isIntegral = true ∧ realNonneg (env.v .sensitivity)
+  | .Geometric, env => (env.v .sensitivity).isIntegral = true ∧ realNonneg (env.v .sensitivity)
+  | .GeometricTruncated, env => (env.v .sensitivity).isIntegral = true ∧ realNonneg (env.v .sensitivity)
+  | .GeometricFolded, env => (env.v .sensitivity).isIntegral = true ∧ realNonneg (env.v .sensitivity)
+  | .Vector, env => realNonneg (env.v .sensitivity) ∧ realNonneg (env.v .dataSensitivity)
+  | _, env => realNonneg (env.v .sensitivity)
+
+/-- both bounds are numbers and the lower one is not above the upper one (silent about NaN, see the header of
+`harness/props/c13.py`: the property lists "lower bound above upper bound") -/
+def baseBoundsOk (env : Env) : Prop :=
+  ∃ l u, (env.v .lower).real? = some l ∧ (env.v .upper).real? = some u ∧ ¬ l.Gt u
+
+def integralOrInf (v : PyVal) : Prop := v.isIntegral = true ∨ ∃ x, v.real? = some x ∧ x.isInf = true
+
+def ValidBounds : Mech → Env → Prop
+  | .GeometricTruncated, env => integralOrInf (env.v .lower) ∧ integralOrInf (env.v .upper) ∧ baseBoundsOk env
+  | .GeometricFolded, env =>
+    -- "integer or half-integer" with numpy's `isclose` tolerance, exactly as documented by the error message
+    (∃ l u, (env.v .lower).real? = some l ∧ (env.v .upper).real? = some u ∧
+      halfIntClose l = true ∧ halfIntClose u = true) ∧ baseBoundsOk env
+  | .LaplaceTruncated, env => baseBoundsOk env
+  | .LaplaceFolded, env => baseBoundsOk env
+  | .LaplaceBoundedDomain, env => baseBoundsOk env
+  | .Snapping, env =>
+    baseBoundsOk env ∧ ∃ l u, (env.v .lower).real? = some l ∧ (env.v .upper).real? = some u ∧
+      l.isFin = true ∧ u.isFin = true
+  | _, _ => True
+
+/-- the remaining numeric parameters: Staircase gamma ∈ [0, 1]; Vector alpha a number that is not `≤ 0` (silent about
+NaN: not in the property's list), Vector dimension an integer-valued number ≥ 1 -/
+def ValidOther : Mech → Env → Prop
+  | .Staircase, env => ∃ g, (env.v .gamma).real? = some g ∧ g.In01
+  | .Vector, env =>
+    (∃ a, (env.v .alpha).real? = some a ∧ ¬ a.Nonpos) ∧
+    (∃ q, (env.v .dimension).real? = some (.fin q) ∧ isclose q (truncInt q) = true ∧ 1 ≤ truncInt q)
+  | _, _ => True
+
+/-- structured parameters: every test on them is False -/
+def ValidStructured : Mech → Env → Prop
+  | .Binary, env => env.f .labelsNotStr = false ∧ env.f .labelsEmpty = false ∧ env.f .labelsEqual = false
+  | .Exponential, env =>
+    env.f .utilNotList = false ∧ env.f .utilNonReal = false ∧ env.f .utilEmpty = false ∧ env.f .utilInf = false ∧
+    env.f .candNotList = false ∧ env.f .candLen = false ∧ env.f .measNotList = false ∧ env.f .measNonReal = false ∧
+    env.f .measInf = false ∧ env.f .measNegative = false ∧ env.f .measLen = false
+  | .PermuteAndFlip, env =>
+    env.f .utilNotList = false ∧ env.f .utilNonReal = false ∧ env.f .utilEmpty = false ∧ env.f .utilInf = false ∧
+    env.f .candNotList = false ∧ env.f .candLen = false ∧ env.f .measNotList = false ∧ env.f .measNonReal = false ∧
+    env.f .measInf = false ∧ env.f .measNegative = false ∧ env.f .measLen = false
+  | _, _ => True
+
+/-- the parameters of mechanism class `m` are within their documented ranges -/
+def Valid (m : Mech) (env : Env) : Prop :=
+  ValidEpsDelta m env ∧ ValidSens m env ∧ ValidBounds m env ∧ ValidOther m env ∧ ValidStructured m env
+
+/-- (epsilon, delta) acceptable to `validation.check_epsilon_delta` / the accountant -/
+def ValidBudget (allowZero : Bool) (env : Env) : Prop :=
+  ∃ x y, (env.v .epsilon).real? = some x ∧ (env.v .delta).real? = some y ∧
+    x.Nonneg ∧ y.In01 ∧ (allowZero = false → ¬ (x.IsZero ∧ y.IsZero))
+
+end Val
+end DPL
